@@ -57,7 +57,11 @@ def run_one(task):
         except SyntaxError as exc:
             return (prop, kind, v["name"], "bad-variant", f"does not compile: {exc}")
         overlay[rel] = src
-    code, rep, _ = analyse(prop, root, "quick", quiet=True, overlay=overlay)
+    try:
+        code, rep, _ = analyse(prop, root, "quick", quiet=True, overlay=overlay)
+    except Exception as exc:  # the analyser itself crashed on the variant
+        import traceback
+        return (prop, kind, v["name"], "CRASH", traceback.format_exc()[-400:])
     res = rep.result
     if kind == "twin":
         if code == 0:
